@@ -146,20 +146,28 @@ structure LinkBaseAt (p : Policy) (el : Bytes) : Prop extends LinkCoreAt p el wh
   noRelTarget : ∀ aps, p.attrRulesFor el = some aps → isHrefElement el = true → ∀ v,
     (p.filterAttr el aps false ⟨b!"rel", v⟩).isSome = false ∧ (p.filterAttr el aps false ⟨b!"target", v⟩).isSome = false
 
-theorem link_sanitizeAttrsAt (p : Policy) (el : Bytes) (hs : LinkCoreAt p el) (attrs : List Attr) (aps : AttrRules) :
+theorem link_sanitizeAttrs3 (p : Policy) (el : Bytes) (h1 : p.hasStylePolicies el = false)
+    (h2 : p.requireCrossOriginAnonymous = false) (h3 : p.requireSandboxOnIFrame = none)
+    (attrs : List Attr) (aps : AttrRules) :
     p.sanitizeAttrs el attrs aps =
       (let c := attrs.filter fun a => (p.filterAttr el aps false a).isSome
        if c.isEmpty then some c else p.linkPasses el c) := by
   unfold Policy.sanitizeAttrs
   split
   · rename_i h; simp [List.isEmpty_iff.mp h]
-  · simp only [hs.noStyle, filterMap_eq_filter]
+  · simp only [h1, filterMap_eq_filter]
     split
     · rename_i h; simp [h]
     · rename_i h
       unfold Policy.forceSandbox Policy.forceCrossOrigin
-      simp only [hs.noCross, hs.noSandbox, Bool.false_and, Bool.false_eq_true, ↓reduceIte, h]
+      simp only [h2, h3, Bool.false_and, Bool.false_eq_true, ↓reduceIte]
       cases p.linkPasses el (List.filter (fun a => (p.filterAttr el aps false a).isSome) attrs) <;> rfl
+
+theorem link_sanitizeAttrsAt (p : Policy) (el : Bytes) (hs : LinkCoreAt p el) (attrs : List Attr) (aps : AttrRules) :
+    p.sanitizeAttrs el attrs aps =
+      (let c := attrs.filter fun a => (p.filterAttr el aps false a).isSome
+       if c.isEmpty then some c else p.linkPasses el c) :=
+  link_sanitizeAttrs3 p el hs.noStyle hs.noCross hs.noSandbox attrs aps
 
 /-- the URL pass on one attribute: a fixed point on what it returns; a changed attribute has the element's URL key -/
 theorem urlFixAt {p : Policy} {el : Bytes} (hs : LinkCoreAt p el) (a b : Attr)
